@@ -792,21 +792,50 @@ func genFail(r *vlib.R, emit func(string)) {
 		default:
 			now += uint64(r.Intn(5)) * 5e8
 		}
-		switch x := r.Intn(10); {
-		case x < 6:
+		switch x := r.Intn(20); {
+		case x < 8:
 			emit(fmt.Sprintf("fail record %d %d", q, now))
 			if w, ok := fcRef[q]; ok {
 				retry[q] = w[1]
 			}
-		case x < 8:
+		case x < 11: // zone-wide failures: ancestors of the deeper names
+			z := uint64(r.Intn(int(nq)))
+			emit(fmt.Sprintf("fail zrecord %d %d", z, now))
+			if w, ok := fcZRef[z]; ok {
+				retry[q] = w[1]
+			}
+		case x < 15:
 			emit(fmt.Sprintf("fail lookup %d %d", q, now))
-		case x < 9:
+		case x < 16:
 			emit(fmt.Sprintf("fail reset %d", q))
 			delete(retry, q)
+		case x < 17:
+			emit(fmt.Sprintf("fail zreset %d", r.Intn(int(nq))))
+		case x < 18:
+			emit(fmt.Sprintf("fail rmatch %d", q))
+		case x < 19:
+			emit(fmt.Sprintf("fail purge %d", q))
 		default:
 			emit("fail len")
 		}
 	}
+	// a failed authority tree: zone states on several ancestors plus an exact
+	// state, then a fresh useful answer for the deepest name (ResetMatching) and
+	// an operator purge
+	now += mx + 1e9
+	deep := nq - 1
+	for z := uint64(0); z <= deep; z++ {
+		if r.Chance(2, 3) || z == 0 || z == deep {
+			emit(fmt.Sprintf("fail zrecord %d %d", z, now))
+		}
+	}
+	emit(fmt.Sprintf("fail record %d %d", deep, now))
+	emit(fmt.Sprintf("fail lookup %d %d", deep, now+1))
+	if deep >= 1 {
+		emit(fmt.Sprintf("fail purge %d", deep-1))
+	}
+	emit(fmt.Sprintf("fail rmatch %d", deep))
+	emit(fmt.Sprintf("fail lookup %d %d", deep, now+1))
 	emit("fail len")
 }
 
